@@ -24,6 +24,7 @@ type behStep struct {
 	Np      int             `json:"np"`
 	Prot    int             `json:"prot"`
 	Ld      json.RawMessage `json:"ld"`
+	Hf      int             `json:"hf"` // header fields of ld; the rest is the raw data block
 	Mask    []int           `json:"mask"`
 	Raw     struct {
 		N  int `json:"n"`
@@ -64,16 +65,12 @@ func replayBeh(c *rp.Ctx, i int, steps []behStep, mode string) rp.Result {
 			if err != nil {
 				panic(err)
 			}
-			n, id := s.Raw.N, s.Raw.ID
-			if s.Op == "write" {
-				f := l[len(l)-1]
-				if f.K != "fill" {
-					panic("frame layout without payload")
-				}
-				n, id = f.N, f.ID
+			head, pay := splitFrame(l, s.Hf, mode, c.Seed, i, 0, nil)
+			n := len(pay)
+			if s.Op == "encode" && n != s.Raw.N {
+				panic(fmt.Sprintf("raw block layout of %d bytes, specification says %d", n, s.Raw.N))
 			}
-			pay := payload(mode, n, id, c.Seed, i)
-			want := expandFrame(l, pay, c.Seed)
+			want := append(append([]byte(nil), head...), pay...)
 			frame := want
 			if s.Op == "encode" {
 				got, err := obj.Encode(pay)
@@ -130,6 +127,7 @@ func replayBeh(c *rp.Ctx, i int, steps []behStep, mode string) rp.Result {
 		if len(stream) != s.Wl {
 			return rp.Fail(i, "%s: stream holds %d bytes, specification %d", at, len(stream), s.Wl)
 		}
+		rp.Alive()
 		if s.Res == "ok" {
 			a := obj.ASC()
 			if int(a.Object.ToProfile()) != s.Profile || int(a.SampleRate) != s.Asc[1] || int(a.Channels) != s.Asc[2] {
